@@ -23,7 +23,7 @@ RULE = ("Tables (local and fake S3; 2-4 retained snapshots chosen by the seed) w
         "marker, and deletable 2 h old orphans, all reachable files aged 2 h so that any wrong decision deletes something. (a) a fault at EVERY step of a "
         "clean collection run (local: storage API calls and the os-level calls under them, once as a one-shot error and once persisting for that call on that file; S3 (2 keys per listing page): every request, once as a single transient error that the retry layer absorbs and once failing persistently through all retries), "
         "(b) each of the three listings returning an escaping path, (c) every reachable metadata-plane file x {delete, truncations, random bytes} that an "
-        "independent parser rejects. Oracle: a run that raised deleted nothing; a run that returned deleted no file that is reachable in the UNDAMAGED "
+        "independent parser rejects, plus the current metadata file as valid JSON without its 'snapshots' section. Oracle: a run that raised deleted nothing; a run that returned deleted no file that is reachable in the UNDAMAGED "
         "table or protected by a live marker. Non-trivial: the fault hit a call whose result feeds the reachable/protected sets (anything before the first "
         "delete). distinct = (world, variant, fault class, normalised step).")
 ASSUMPTIONS = ["ages are set with utime / LastModified rewriting; 'live' markers are younger than 24 h",
@@ -243,8 +243,16 @@ def run_variant(task):
                 n = len(orig)
                 dmg = [("delete", None), ("truncate0", b""), ("truncate-half", orig[: n // 2]), ("truncate-1", orig[:-1]), ("truncate-magic", orig[:4]),
                        ("random", bytes((i * 37 + 11) % 256 for i in range(n)))]
+                if cls == "metadata":
+                    # still JSON, but the section that lists the snapshots is gone: nothing can be decided from it
+                    try:
+                        doc = json.loads(orig.decode("utf-8"))
+                        doc.pop("snapshots")
+                        dmg.append(("key-removed-snapshots", json.dumps(doc).encode("utf-8")))
+                    except Exception:
+                        pass
                 for dname, payload in dmg:
-                    if payload is not None and _parse_ok(cls, payload):
+                    if payload is not None and not dname.startswith("key-removed") and _parse_ok(cls, payload):
                         res.labels["c:still-parses(excluded)"] += 1
                         continue
                     wi = base.clone(f"{d}/c{len(seen)}_{dname}") if wk == "local" else base.clone()
